@@ -462,3 +462,61 @@ R.mutant("benign-flag-reset-by-assignment", ENG,
 R.mutant("early-raise-after-classification", ENG,
          sub("        invalidate_pool_on_disconnect = not is_exit_exception\n",
              "        invalidate_pool_on_disconnect = not is_exit_exception\n        if is_sub_exec:\n            raise e\n"), "C27-R5")
+
+# ---------------------------------------------------------------------- rob-A: behaviour-preserving refactorings
+# (family of the stored benign/rfA_13 + variants; the rules analyse the normal form, see _helpers_rob_a)
+_LOOP = ("                for fn in self.dialect.dispatch.handle_error:\n                    try:\n"
+         "                        # handler returns an exception;\n                        # call next handler in a chain\n"
+         "                        per_fn = fn(ctx)\n                        if per_fn is not None:\n"
+         "                            ctx.chained_exception = newraise = per_fn\n                    except Exception as _raised:\n"
+         "                        # handler raises an exception - stop processing\n                        newraise = _raised\n                        break\n")
+_CHAIN_HELPER = ("    @staticmethod\n    def _run_handle_error_chain(handlers: Any, ctx: Any) -> Optional[BaseException]:\n        newraise = None\n"
+                 "        for fn in handlers:\n            try:\n                per_fn = fn(ctx)\n                if per_fn is not None:\n"
+                 "                    ctx.chained_exception = newraise = per_fn\n            except Exception as _raised:\n"
+                 "                newraise = _raised\n                break\n        return newraise\n\n")
+R.mutant("benign-rob-handle-error-chain-helper", ENG,
+         chain(sub(_LOOP, "                newraise = self._run_handle_error_chain(\n                    self.dialect.dispatch.handle_error, ctx\n                )\n"),
+               sub("    def _handle_dbapi_exception(\n", _CHAIN_HELPER + "    def _handle_dbapi_exception(\n")), None)
+_INV20 = INV.replace("                ", "                    ", 1).replace("\n                ", "\n                    ")
+R.mutant("benign-rob-disconnect-invalidation-helper", ENG,
+         chain(sub(_INV20, "                    self._invalidate_after_disconnect(e, invalidate_pool_on_disconnect)\n"),
+               sub("    def _handle_dbapi_exception(\n",
+                   "    def _invalidate_after_disconnect(self, err: BaseException, invalidate_pool: bool) -> None:\n"
+                   "        wrapper = self._dbapi_connection\n        assert wrapper is not None\n        if invalidate_pool:\n"
+                   "            self.engine.pool._invalidate(wrapper, err)\n        self.invalidate(err)\n\n    def _handle_dbapi_exception(\n")), None)
+R.mutant("rob-disconnect-invalidation-helper-only-pool", ENG,
+         chain(sub(_INV20, "                    self._invalidate_after_disconnect(e, invalidate_pool_on_disconnect)\n"),
+               sub("    def _handle_dbapi_exception(\n",
+                   "    def _invalidate_after_disconnect(self, err: BaseException, invalidate_pool: bool) -> None:\n"
+                   "        wrapper = self._dbapi_connection\n        assert wrapper is not None\n        if invalidate_pool:\n"
+                   "            self.engine.pool._invalidate(wrapper, err)\n            self.invalidate(err)\n\n    def _handle_dbapi_exception(\n")), "C27-R2")
+_CLASSIFY = ("            self._is_disconnect = (\n                isinstance(e, self.dialect.loaded_dbapi.Error)\n                and not self.closed\n"
+             "                and self.dialect.is_disconnect(\n                    e,\n                    self._dbapi_connection if not self.invalidated else None,\n"
+             "                    cursor,\n                )\n            ) or (is_exit_exception and not self.closed)\n")
+R.mutant("benign-rob-classify-disconnect-helper", ENG,
+         chain(sub(_CLASSIFY, "            self._is_disconnect = self._classify_disconnect(e, cursor, is_exit_exception)\n"),
+               sub("    def _handle_dbapi_exception(\n",
+                   "    def _classify_disconnect(self, err: BaseException, cursor: Any, is_exit: bool) -> bool:\n"
+                   "        return (\n            isinstance(err, self.dialect.loaded_dbapi.Error)\n            and not self.closed\n"
+                   "            and self.dialect.is_disconnect(\n                err,\n                self._dbapi_connection if not self.invalidated else None,\n"
+                   "                cursor,\n            )\n        ) or (is_exit and not self.closed)\n\n    def _handle_dbapi_exception(\n")), None)
+_COMMIT_TRY = ("        try:\n            self.engine.dialect.do_commit(self.connection)\n        except BaseException as e:\n"
+               "            self._handle_dbapi_exception(e, None, None, None, None)\n")
+R.mutant("benign-rob-do-commit-bare-helper-called-in-try", ENG,
+         chain(sub(_COMMIT_TRY, "        try:\n            self._dbapi_commit()\n        except BaseException as e:\n            self._handle_dbapi_exception(e, None, None, None, None)\n"),
+               sub("    def _commit_impl(self) -> None:\n", "    def _dbapi_commit(self) -> None:\n        self.engine.dialect.do_commit(self.connection)\n\n    def _commit_impl(self) -> None:\n")), None)
+R.mutant("rob-do-commit-bare-helper-also-called-unwrapped", ENG,
+         chain(sub(_COMMIT_TRY, "        try:\n            self._dbapi_commit()\n        except BaseException as e:\n            self._handle_dbapi_exception(e, None, None, None, None)\n"),
+               sub("    def _commit_impl(self) -> None:\n", "    def _dbapi_commit(self) -> None:\n        self.engine.dialect.do_commit(self.connection)\n\n"
+                   "    def _commit_quietly(self) -> None:\n        self._dbapi_commit()\n\n    def _commit_impl(self) -> None:\n")), "C27-R1")
+R.mutant("benign-rob-revalidate-early-raise-alias", ENG,
+         sub("        if self.__can_reconnect and self.invalidated:\n            if self._transaction is not None:\n                self._invalid_transaction()\n"
+             "            self._dbapi_connection = self.engine.raw_connection()\n            return self._dbapi_connection\n        raise exc.ResourceClosedError(\"This Connection is closed\")\n",
+             "        if not (self.__can_reconnect and self.invalidated):\n            raise exc.ResourceClosedError(\"This Connection is closed\")\n"
+             "        pending = self._transaction\n        if pending is not None:\n            self._invalid_transaction()\n"
+             "        self._dbapi_connection = self.engine.raw_connection()\n        return self._dbapi_connection\n"), None)
+R.mutant("benign-rob-invalidate-no-alias-nested", ENG,
+         sub("        if self._still_open_and_dbapi_connection_is_valid:\n            pool_proxied_connection = self._dbapi_connection\n"
+             "            assert pool_proxied_connection is not None\n            pool_proxied_connection.invalidate(exception)\n\n        self._dbapi_connection = None\n",
+             "        still_open = self._still_open_and_dbapi_connection_is_valid\n        if still_open:\n"
+             "            assert self._dbapi_connection is not None\n            self._dbapi_connection.invalidate(exception)\n        self._dbapi_connection = None\n"), None)
